@@ -553,6 +553,15 @@ enum Mode {
     App(usize),
     Each,
     Sl(usize),
+    /// append, push, `clear()`, `reserve`, then two appends (history: rows object reused)
+    Clr,
+    /// rows [0,k) converted, `try_into_binary`, `from_binary`, then rows [k,n) appended onto it
+    Bin(usize),
+    /// k junk rows in front and two behind, `try_into_binary`, the BinaryArray *sliced* to the
+    /// real rows (first offset != 0, values buffer longer than the last offset), `from_binary`
+    Bsl(usize),
+    /// rows [0,k) pushed one by one as `RowParser::parse`d rows into `empty_rows`, rest appended
+    Psh(usize),
 }
 
 struct Case {
@@ -574,6 +583,10 @@ fn parse_case(line: &str) -> PR<Case> {
         "each" => Mode::Each,
         m if m.starts_with("app") => Mode::App(num(&m[3..])?),
         m if m.starts_with("sl") => Mode::Sl(num(&m[2..])?),
+        "clr" => Mode::Clr,
+        m if m.starts_with("bin") => Mode::Bin(num(&m[3..])?),
+        m if m.starts_with("bsl") => Mode::Bsl(num(&m[3..])?),
+        m if m.starts_with("psh") => Mode::Psh(num(&m[3..])?),
         m => return Err(format!("bad mode {}", m)),
     };
     let mut p = Parser::new(t[3]);
@@ -1995,6 +2008,59 @@ fn compute_rows(conv: &RowConverter, case: &Case, mode: &Mode, lay: &mut Lay, fa
             }
             Ok(out)
         }
+        Mode::Clr => {
+            let mut rows = conv.empty_rows(0, 0);
+            conv.append(&mut rows, &mk_arrays(case, 0, n, lay, None, fails))?;
+            if n > 0 {
+                let r0 = rows.row(n - 1).owned();
+                rows.push(r0.row());
+            }
+            rows.clear();
+            if rows.num_rows() != 0 || rows.iter().next().is_some() {
+                fails.push("clear: rows left after clear()".into());
+            }
+            rows.reserve(n, 16);
+            let k = n / 2;
+            conv.append(&mut rows, &mk_arrays(case, 0, k, lay, None, fails))?;
+            conv.append(&mut rows, &mk_arrays(case, k, n, lay, None, fails))?;
+            Ok(rows)
+        }
+        Mode::Bin(k) => {
+            let k = (*k).min(n);
+            let first = conv.convert_columns(&mk_arrays(case, 0, k, lay, None, fails))?;
+            let arr = first.try_into_binary()?;
+            let mut rows = conv.from_binary(arr);
+            conv.append(&mut rows, &mk_arrays(case, k, n, lay, None, fails))?;
+            Ok(rows)
+        }
+        Mode::Bsl(k) => {
+            let real = conv.convert_columns(&mk_arrays(case, 0, n, lay, None, fails))?;
+            if n == 0 {
+                return Ok(conv.from_binary(real.try_into_binary()?));
+            }
+            let mut big = conv.empty_rows(0, 0);
+            for j in 0..*k {
+                big.push(real.row((j * 5 + 1) % n));
+            }
+            for j in 0..n {
+                big.push(real.row(j));
+            }
+            big.push(real.row(n - 1));
+            big.push(real.row(0));
+            let arr = big.try_into_binary()?;
+            Ok(conv.from_binary(arr.slice(*k, n)))
+        }
+        Mode::Psh(k) => {
+            let k = (*k).min(n);
+            let all = conv.convert_columns(&mk_arrays(case, 0, n, lay, None, fails))?;
+            let parser = conv.parser();
+            let mut rows = conv.empty_rows(0, 0);
+            for j in 0..k {
+                rows.push(parser.parse(all.row(j).data()));
+            }
+            conv.append(&mut rows, &mk_arrays(case, k, n, lay, None, fails))?;
+            Ok(rows)
+        }
     }
 }
 
@@ -2102,6 +2168,10 @@ fn mode_name(m: &Mode) -> &'static str {
         Mode::App(_) => "app",
         Mode::Each => "each",
         Mode::Sl(_) => "sl",
+        Mode::Clr => "clr",
+        Mode::Bin(_) => "bin",
+        Mode::Bsl(_) => "bsl",
+        Mode::Psh(_) => "psh",
     }
 }
 
@@ -2318,6 +2388,135 @@ fn run_case(line: &str) -> (String, Vec<String>, String) {
         v
     });
 
+    // 6. the rest of the public surface of Rows / Row / RowConverter
+    step("api", &mut fails, || {
+        use std::hash::{Hash, Hasher};
+        let mut v = vec![];
+        let h = |x: &dyn Fn(&mut std::collections::hash_map::DefaultHasher)| {
+            let mut s = std::collections::hash_map::DefaultHasher::new();
+            x(&mut s);
+            s.finish()
+        };
+        if rows.num_rows() != n || rows.iter().len() != n || rows.iter().size_hint() != (n, Some(n)) || (&rows).into_iter().count() != n {
+            v.push("api: num_rows / iter len".into());
+        }
+        let lens: Vec<usize> = rows.lengths().collect();
+        for i in 0..n {
+            if rows.row_len(i) != bytes[i].len() || lens[i] != bytes[i].len() {
+                v.push(format!("api: row_len/lengths row {}", i));
+            }
+            // SAFETY: i < num_rows
+            if unsafe { rows.row_unchecked(i) }.as_ref() != &bytes[i][..] {
+                v.push(format!("api: row_unchecked row {}", i));
+            }
+            let o = rows.row(i).owned();
+            if h(&|s| rows.row(i).hash(s)) != h(&|s| o.hash(s)) {
+                v.push(format!("api: Row/OwnedRow hash differ row {}", i));
+            }
+            let j = (i * 3 + 1) % n;
+            if rows.row(i) == rows.row(j) && h(&|s| rows.row(i).hash(s)) != h(&|s| rows.row(j).hash(s)) {
+                v.push(format!("api: equal rows {} {} hash differently", i, j));
+            }
+        }
+        let back: Vec<Vec<u8>> = rows.iter().rev().map(|r| r.as_ref().to_vec()).collect();
+        if back.iter().rev().ne(bytes.iter()) {
+            v.push("api: reverse iteration".into());
+        }
+        let mut it = rows.iter();
+        if n > 0 && (it.next_back().map(|r| r.as_ref().to_vec()) != Some(bytes[n - 1].clone()) || it.len() != n - 1) {
+            v.push("api: next_back".into());
+        }
+        let sf: Vec<SortField> = case.fields.iter().map(|f| SortField::new_with_options(dtype(&f.ty), f.opts())).collect();
+        if !RowConverter::supports_fields(&sf) {
+            v.push("api: supports_fields false for a converter that exists".into());
+        }
+        if let Some(f) = case.fields.first() {
+            if SortField::new(dtype(&f.ty)) != SortField::new_with_options(dtype(&f.ty), SortOptions::default()) {
+                v.push("api: SortField::new".into());
+            }
+        }
+        if rows.size() < bytes.iter().map(|b| b.len()).sum::<usize>() || conv.size() == 0 {
+            v.push("api: size()".into());
+        }
+        // SAFETY: the rows come from valid arrays
+        let p2 = unsafe { conv.parser_skip_utf8_validation() };
+        match conv.convert_rows(bytes.iter().map(|b| p2.parse(b))) {
+            Ok(back) => v.extend(check_vals("parser-noutf8-roundtrip", &case, &back, &ident)),
+            Err(e) => v.push(format!("parser-noutf8-roundtrip: {}", err_class(&e))),
+        }
+        v
+    });
+
+    // 7. histories on top of these rows: push, then append, then convert everything back
+    step("history", &mut fails, || {
+        let mut v = vec![];
+        if n == 0 {
+            return v;
+        }
+        let mut r2 = rows.clone();
+        r2.push(rows.row(n - 1));
+        r2.push(rows.row(0));
+        let one = mk_arrays(&case, 0, 1, &mut Lay::plain(), None, &mut v);
+        if let Err(e) = conv.append(&mut r2, &one) {
+            v.push(format!("history: append {}", err_class(&e)));
+            return v;
+        }
+        let mut sel: Vec<usize> = (0..n).collect();
+        sel.extend([n - 1, 0, 0]);
+        if r2.num_rows() != sel.len() {
+            v.push(format!("history: {} rows want {}", r2.num_rows(), sel.len()));
+            return v;
+        }
+        for (r, s) in sel.iter().enumerate() {
+            if r2.row(r).as_ref() != &bytes[*s][..] {
+                v.push(format!("history: row {} after push/append differs from row {}", r, s));
+                break;
+            }
+        }
+        match conv.convert_rows(&r2) {
+            Ok(back) => v.extend(check_vals("history-roundtrip", &case, &back, &sel)),
+            Err(e) => v.push(format!("history-roundtrip: {}", err_class(&e))),
+        }
+        match r2.try_into_binary() {
+            Ok(arr) => {
+                let r3 = conv.from_binary(arr);
+                if (0..sel.len()).any(|r| r3.row(r).as_ref() != &bytes[sel[r]][..]) {
+                    v.push("history: binary round trip after push/append".into());
+                }
+            }
+            Err(e) => v.push(format!("history: try_into_binary {}", err_class(&e))),
+        }
+        v
+    });
+
+    // 8. misuse is reported as an error, never as rows
+    step("misuse", &mut fails, || {
+        let mut v = vec![];
+        let nf = case.fields.len();
+        if nf >= 1 {
+            if conv.convert_columns(&plain[..nf - 1]).is_ok() {
+                v.push("misuse: too few columns accepted".into());
+            }
+            let mut wrong = plain.clone();
+            wrong[0] = if matches!(case.fields[0].ty, Ty::Int { bits: 8, signed: true, .. }) {
+                Arc::new(BooleanArray::from(vec![true; n])) as ArrayRef
+            } else {
+                Arc::new(Int8Array::from(vec![0i8; n])) as ArrayRef
+            };
+            if conv.convert_columns(&wrong).is_ok() {
+                v.push("misuse: column of a different type accepted".into());
+            }
+        }
+        if nf >= 2 && n >= 1 {
+            let mut short = plain.clone();
+            short[nf - 1] = short[nf - 1].slice(0, n - 1);
+            if conv.convert_columns(&short).is_ok() {
+                v.push("misuse: columns of different length accepted".into());
+            }
+        }
+        v
+    });
+
     let mut dis = orc.disagree.into_inner();
     dis.sort();
     dis.dedup();
@@ -2507,10 +2706,14 @@ fn gen_case(g: &mut Gen) -> (String, String) {
         2 + g.rng.usize(11)
     };
     let mode = match g.rng.below(20) {
-        0..=7 => Mode::One,
-        8..=11 => Mode::App(g.rng.usize(n + 1)),
-        12..=14 => Mode::Each,
-        _ => Mode::Sl(1 + g.rng.usize(4)),
+        0..=5 => Mode::One,
+        6..=8 => Mode::App(g.rng.usize(n + 1)),
+        9..=10 => Mode::Each,
+        11..=13 => Mode::Sl(1 + g.rng.usize(4)),
+        14 => Mode::Clr,
+        15..=16 => Mode::Bin(g.rng.usize(n + 1)),
+        17..=18 => Mode::Bsl(g.rng.usize(4)),
+        _ => Mode::Psh(g.rng.usize(n + 1)),
     };
     let mut fields = vec![];
     for _ in 0..nfields {
@@ -2553,6 +2756,10 @@ fn gen_case(g: &mut Gen) -> (String, String) {
         Mode::App(k) => format!("app{}", k),
         Mode::Each => "each".to_string(),
         Mode::Sl(k) => format!("sl{}", k),
+        Mode::Clr => "clr".to_string(),
+        Mode::Bin(k) => format!("bin{}", k),
+        Mode::Bsl(k) => format!("bsl{}", k),
+        Mode::Psh(k) => format!("psh{}", k),
     };
     let line = format!("C11 enc {} {} {}", mode_s, schema, rows);
 
